@@ -82,6 +82,9 @@ structure T where
   running : Option Nat := none
   deferred : Option PA := none
   pendingOp : Option COp := none         -- last echoed operation (its result line follows)
+  postStrict : Bool := false             -- the post action just resolved is a Disable / Reregister of a source still in its slot: its failure is the dispatch's
+  afterPeret : Bool := false             -- the registration calls that follow are the loop carrying out a post action
+  postRegFailed : Bool := false          -- one of them failed in this dispatch: the dispatch must report an error
   inDispatch : Bool := false
   sawPe : Bool := false                  -- some `process_events` ran in this dispatch
   bsFailed : Bool := false
@@ -161,13 +164,15 @@ def T.applyPost (t : T) (k : Nat) (r : Option PA) : T :=
   let deferred := t.deferred
   let t := { t with deferred := none, running := none }
   match r with
-  | none => { t with anyFailure := true }       -- an error applies nothing
+  | none => { t with anyFailure := true, postStrict := false }       -- an error applies nothing
   | some ret =>
     let resolved := if ret == .Continue then deferred.getD .Continue else ret
     let t := if resolved != .Continue || deferred.isSome then { t with postActors := addActor t.postActors k } else t
     let t := if resolved == .Disable then { t with disablers := addActor t.disablers k } else t
     let nsub := match t.src k with | some a => if a.kind == .custom then a.nsub else 0 | none => 0
     let gone := match t.src k with | some a => a.status == .absent | none => true
+    -- (the clean-up of a source that removed itself, and of a `Remove`, only logs a failing unregistration)
+    let t := { t with postStrict := (resolved == .Disable || resolved == .Reregister) && !gone }
     let subs := List.range nsub
     match resolved with
     | .Continue =>
@@ -337,6 +342,7 @@ def onObs (t : T) (x : Obs) : T :=
     | _, _ => t
   match x with
   | .exec o =>
+    let t := { t with afterPeret := false }
     let t := match o with | .churn n => { t with handouts := t.handouts + n } | _ => t
     onExec t o
   | .top (.dispatch) =>
@@ -376,6 +382,7 @@ def onObs (t : T) (x : Obs) : T :=
     t.modSrc k fun a => { a with status := .absent, tok := none }
   | .ins _ .nosource => t
   | .pe k =>
+    let t := { t with afterPeret := false }
     let t := t.modSrc k fun a => { a with lastRet := none }
     let t := t.flagIf t.idlePhase .C13 s!"source {k} processed events after an idle callback of the same dispatch"
     -- C14: every due lifecycle source had its hooks before any event processing
@@ -397,7 +404,8 @@ def onObs (t : T) (x : Obs) : T :=
           | none => r                       -- no callback ran (stale or foreign event)
         else r
       | _, _ => r
-    (t.applyPost k r').modSrc k fun a => { a with lastRet := none }
+    let t' := (t.applyPost k r').modSrc k fun a => { a with lastRet := none }
+    { t' with afterPeret := t'.postStrict }
   | .cb k p =>
     match t.src k with
     | none => t.flag .C01 s!"callback of unknown source {k}"
@@ -460,7 +468,9 @@ def onObs (t : T) (x : Obs) : T :=
     | _, _ => t
   | .reg k kind sub ok =>
     if ok then expectReg t k kind sub
-    else { (t.modSrc k fun a => { a with unknown := true }) with regFailed := true, anyFailure := true, expectRegs := none }
+    else
+      let post := t.postRegFailed || (t.afterPeret && t.inDispatch)
+      { (t.modSrc k fun a => { a with unknown := true }) with regFailed := true, anyFailure := true, expectRegs := none, postRegFailed := post }
   | .bs k b =>
     match t.src k with
     | none => t
@@ -499,6 +509,8 @@ def onObs (t : T) (x : Obs) : T :=
   | .dispatchEnd e =>
     let t := match e with
       | none =>
+        -- C15: "a failing … disable returns its error": a post action the loop could not carry out fails the dispatch
+        let t := t.flagIf t.postRegFailed .C15 "a (un)registration the loop carried out for a post action failed, but the dispatch returned Ok"
         -- C13: every due, not cancelled idle has run
         let due : List (Nat × Nat) := match t.idleDue with | some d => d | none => t.idleQ
         let left := due.filter fun ((_, inst) : Nat × Nat) => !t.idleCancelled.contains inst
@@ -520,7 +532,7 @@ def onObs (t : T) (x : Obs) : T :=
         -- C13: idles run after the events of a dispatch that returns Ok — never in one that fails
         let t := t.flagIf t.idlePhase .C13 "idle callbacks ran in a dispatch that returned an error"
         { t with anyFailure := true }
-    { t with inDispatch := false, idleDue := none, idlePhase := false, running := none }
+    { t with inDispatch := false, idleDue := none, idlePhase := false, running := none, afterPeret := false, postRegFailed := false }
   | .st s =>
     -- C06: a removed source that nobody else holds is released by the end of the operation / dispatch
     let t := t.srcs.foldl (fun (t : T) ((j, a) : Nat × ASrc) =>
